@@ -148,12 +148,28 @@ func genC04(g *Gen, tier string) *Case {
 	if tier == "thorough" {
 		n = 5 + g.Intn(300)
 	}
+	// long reports full of ties: more than a dozen tracked elements, most of them with equal counts
+	// (the order among equal counts is part of the property, and sorting routines change their
+	// strategy with the length of the slice)
+	ties := g.Rare(0.12, 12, 5)
+	if ties {
+		k := g.Pick(13, 16, 20, 24, 40)
+		ops[0] = TL(TNi(tkNew), TNi(0), TNi(k), TNi(g.Pick(300000, 100000, 10000, 1000)), TNi(g.Pick(990000, 500000, 100000)))
+		pool = g.ElementPool(k+1+g.Intn(12), true)
+		n = len(pool) + g.Intn(2*len(pool))
+	}
 	for j := 0; j < n; j++ {
 		x := pool[g.Intn(len(pool))]
-		if g.Chance(0.3) {
+		if ties && j < len(pool) {
+			x = pool[j]
+		} else if g.Chance(0.3) {
 			x = pool[g.Intn(1+len(pool)/3)] // heavy hitters
 		}
-		ops = append(ops, TL(TNi(tkInsert), TNi(0), TBs(x), TNu(g.topkCount())))
+		c := g.topkCount()
+		if ties && g.Chance(0.8) {
+			c = uint64(1 + g.Intn(2))
+		}
+		ops = append(ops, TL(TNi(tkInsert), TNi(0), TBs(x), TNu(c)))
 		if g.Chance(0.5) {
 			ops = append(ops, TL(TNi(tkValues), TNi(0)))
 		}
